@@ -360,11 +360,17 @@ func c16GenProgram(rt *rapid.T, i int, exclude map[string]bool) c16Prog {
 		// a small hierarchy with dispatch (C08 style), namespaced
 		nc := rapid.IntRange(1, 3).Draw(rt, "hnc")
 		h := &hier{Parent: make([]int, nc), IExt: [][]int{{}}, Impl: make([][]int, nc), DefM: make([]bool, nc), DefTag: make([]bool, nc)}
+		noIface := rapid.Bool().Draw(rt, "noiface")
+		if noIface {
+			// interfaces declared in the entry file are a listed finding (missing in the compiled program):
+			// half of the hierarchies do without, so that dispatch itself is compared
+			h.IExt = [][]int{}
+		}
 		for c := 0; c < nc; c++ {
 			h.Parent[c] = rapid.IntRange(-1, c-1).Draw(rt, "hp")
 			h.DefM[c] = rapid.Bool().Draw(rt, "hm") || c == 0
 			h.DefTag[c] = rapid.Bool().Draw(rt, "ht") || c == 0
-			if rapid.Bool().Draw(rt, "hi") {
+			if rapid.Bool().Draw(rt, "hi") && !noIface {
 				h.Impl[c] = []int{0}
 			}
 		}
